@@ -207,6 +207,11 @@ func golubKahanSVD(inSitu *InSitu, epsilon float64) (Matrix, Matrix, Matrix, err
 
   H, U, V, _ := householderBidiagonalization.Run(A, computeU, computeV, &inSitu.HouseholderBidiagonalization)
   B := H.Slice(0,n,0,n)
+  // the Givens rotations below are accumulated from the left, i.e. U holds
+  // the transposed factor until the end
+  if U != nil {
+    U = U.T()
+  }
 
   for p, q := 0, 0; q < n; {
 
